@@ -783,8 +783,18 @@ func renderFile(mode, pkg string, st importStyle, progs []*Program, extraImports
 		b.WriteString("\t\"vt/ref\"\n")
 	}
 	b.WriteString("\t\"vt/tr\"\n")
+	seenIm := map[string]bool{}
 	for _, im := range extraImports {
+		seenIm[im] = true
 		b.WriteString("\t" + im + "\n")
+	}
+	for _, p := range progs {
+		for _, im := range p.Imports {
+			if !seenIm[im] {
+				seenIm[im] = true
+				b.WriteString("\t" + im + "\n")
+			}
+		}
 	}
 	b.WriteString(")\n\n")
 	if mode == "S" && st.Seq != "" {
